@@ -78,6 +78,9 @@ def solve_lp(
 
     if any(matrix[i][-1] < -eps for i in range(m)):
         status, iters, matrix, basis, basis_set = _phase1(matrix, basis, basis_set, m, n, eps, max_iter)
+        if status == Status.MAX_ITER:
+            # phase 1 ran out of pivots: nothing is known about feasibility
+            return Result(tuple([0.0] * n), float("inf"), iters, iters, Status.MAX_ITER)
         if status != Status.OPTIMAL:
             return Result(tuple([0.0] * n), float("inf"), iters, iters, Status.INFEASIBLE)
         max_iter -= iters
@@ -127,6 +130,9 @@ def _phase1(matrix, basis, basis_set, m, n, eps, max_iter):
                 matrix[-1][j] -= matrix[i][j]
 
     status, iters, matrix, basis, basis_set = _phase2(matrix, basis, basis_set, m, eps, max_iter)
+
+    if status == Status.MAX_ITER:
+        return Status.MAX_ITER, iters, matrix, basis, basis_set
 
     if matrix[-1][-1] < -eps:
         return Status.INFEASIBLE, iters, matrix, basis, basis_set
